@@ -116,6 +116,10 @@ type Module struct {
 	NumData    int
 	NumElem    int
 	Stats      map[string]int // instruction-class histogram (generator health)
+	// InsOffs[i] lists, for the i-th module-defined function, the byte offsets at which the
+	// generator's instruction records start in Enc.Funcs[i].Body, followed by the body length
+	// (for instruction-level mutation; not part of replay files).
+	InsOffs [][]uint32 `json:"-"`
 }
 
 // Exports returns the exported functions.
